@@ -659,19 +659,30 @@ fn op_order(live: &mut Live, op: &[String], lines: &mut Vec<String>) {
     let (price, qty) = (parse_dec(t.s()), parse_dec(t.s()));
     t.done();
     live.next_cid += 1;
+    // fields the op does not name run through their domains with the request counter; the order
+    // snapshot that comes back must carry them unchanged
+    let tif = [
+        TimeInForce::ImmediateOrCancel,
+        TimeInForce::GoodUntilCancelled { post_only: false },
+        TimeInForce::GoodUntilCancelled { post_only: true },
+        TimeInForce::GoodUntilEndOfDay,
+        TimeInForce::FillOrKill,
+    ][live.next_cid as usize % 5];
+    let strategy = StrategyId::new(format!("s{}", live.next_cid % 3));
+    let cid = ClientOrderId::new(format!("c{}", live.next_cid));
     let request = OrderEvent {
         key: OrderKey {
             exchange: ExchangeIndex(x),
             instrument: InstrumentIndex(i),
-            strategy: StrategyId::new("s"),
-            cid: ClientOrderId::new(format!("c{}", live.next_cid)),
+            strategy: strategy.clone(),
+            cid: cid.clone(),
         },
         state: RequestOpen {
             side,
             price,
             quantity: qty,
             kind,
-            time_in_force: TimeInForce::ImmediateOrCancel,
+            time_in_force: tif,
         },
     };
     live.log.lock().unwrap().clear();
@@ -736,6 +747,10 @@ fn op_order(live: &mut Live, op: &[String], lines: &mut Vec<String>) {
                 let o = o.0;
                 assert_eq!(o.key.exchange, ev.exchange, "order exchange != event exchange");
                 assert!(o.side == side && o.price == price && o.quantity == qty && o.kind == kind);
+                assert!(
+                    o.time_in_force == tif && o.key.strategy == strategy && o.key.cid == cid,
+                    "order snapshot lost its time in force / strategy / cid"
+                );
                 let outcome = match &o.state {
                     OrderState::Active(ActiveOrderState::Open(_)) => "active".to_string(),
                     OrderState::Inactive(InactiveOrderState::FullyFilled) => "filled".into(),
@@ -990,6 +1005,45 @@ fn exchange_assets(ii: &IndexedInstruments, e: usize) -> Vec<usize> {
     v
 }
 
+/// Input-domain family (`d` cases): the value classes the ordinary pools leave out, in three magnitude
+/// regimes per case (so that every product and sum stays inside the 28 digits `Decimal` computes exactly -
+/// rounding is not modelled). 1 = boundary: rebates (negative fee), fees of 100 % and more; zero, fractional,
+/// negative and EQUAL balances, round amounts that an order of the regime spends exactly (100 = 50 x 2 =
+/// 40 x 2 x 1.25 = 25 x 2 x 2), zero / negative prices. 2 = tiny: 1e-8 fees, balances, prices, quantities.
+/// 3 = huge: prices 1e12, quantities to 1e11, balances to 1e21.
+fn wide_pools(regime: u8) -> [&'static [&'static str]; 4] {
+    match regime {
+        1 => [
+            &["-0.01", "-0.25", "1", "2", "0", "0.25"],
+            &["0", "0.5", "-5", "100", "100", "250", "12.25", "1000"],
+            &["0", "-2", "1", "2", "2", "2.5", "10"],
+            &["-0.5", "1", "50", "40", "25", "100", "125", "0"],
+        ],
+        2 => [
+            &["0.00000001", "0", "0.001", "-0.00000001"],
+            &["0.00000001", "0.5", "100", "0.00000003"],
+            &["0.00000001", "1", "2", "0.5"],
+            &["0.00000001", "1", "0.00000002", "50"],
+        ],
+        _ => [
+            &["0", "0.25", "1", "-0.01"],
+            &["1000000000000", "1000000000000000000000", "100", "250000000000"],
+            &["1000000000000", "1", "2", "2.5"],
+            &["1000000000", "1", "50", "100000000000"],
+        ],
+    }
+}
+
+fn gen_mock_wide(rng: &mut Rng, ii: &IndexedInstruments, e: usize, regime: u8) -> MockCfg {
+    let mut c = gen_mock(rng, ii, e, false);
+    let pools = wide_pools(regime);
+    c.fee = rng.pick(pools[0]).to_string();
+    for b in c.balances.iter_mut() {
+        b.1 = rng.pick(pools[1]).to_string();
+    }
+    c
+}
+
 fn gen_mock(rng: &mut Rng, ii: &IndexedInstruments, e: usize, spoil: bool) -> MockCfg {
     let mut names = exchange_assets(ii, e);
     if spoil && !names.is_empty() && rng.chance(70) {
@@ -1024,6 +1078,12 @@ fn gen_mock(rng: &mut Rng, ii: &IndexedInstruments, e: usize, spoil: bool) -> Mo
 }
 
 fn gen_orders(out: &mut Out, rng: &mut Rng, ii: &IndexedInstruments, n: usize) {
+    gen_orders_from(out, rng, ii, n, 0)
+}
+
+/// `regime` 0: the ordinary pools; 1 / 2 / 3: `wide_pools`
+fn gen_orders_from(out: &mut Out, rng: &mut Rng, ii: &IndexedInstruments, n: usize, regime: u8) {
+    let wide = regime != 0;
     let n_ex = ii.exchanges().len();
     let n_in = ii.instruments().len();
     for _ in 0..n {
@@ -1038,22 +1098,37 @@ fn gen_orders(out: &mut Out, rng: &mut Rng, ii: &IndexedInstruments, n: usize) {
             .filter(|k| k.value.exchange.key.0 == x)
             .map(|k| k.key.0)
             .collect();
-        let i = if !own.is_empty() && rng.chance(85) {
+        // wide: long histories - a foreign instrument (it kills the manager) only rarely
+        let i = if !own.is_empty() && rng.chance(if wide { 98 } else { 85 }) {
             *rng.pick(&own)
         } else {
             rng.below(n_in as u64 + 1) as usize
         };
         let side = if rng.chance(50) { "B" } else { "S" };
         let kind = if rng.chance(92) { "M" } else { "L" };
-        let price = *rng.pick(&["1", "2", "0.5", "10", "3"]);
-        let qty = *rng.pick(&["1", "2", "0.5", "50", "1000", "0", "7", "-1"]);
+        let (price, qty) = if wide {
+            let pools = wide_pools(regime);
+            (*rng.pick(pools[2]), *rng.pick(pools[3]))
+        } else {
+            (
+                *rng.pick(&["1", "2", "0.5", "10", "3"]),
+                *rng.pick(&["1", "2", "0.5", "50", "1000", "0", "7", "-1"]),
+            )
+        };
         out.line(format!("order {x} {i} {side} {kind} {price} {qty}"));
     }
 }
 
 fn emit_random(out: &mut Out, rng: &mut Rng, id: String, thorough: bool) {
+    emit_random_from(out, rng, id, thorough, false)
+}
+
+/// `wide`: the input-domain family — up to all FIVE exchanges, mocks with the wide fee / balance pools,
+/// orders with the wide price / quantity pools, histories of 10-30 requests.
+fn emit_random_from(out: &mut Out, rng: &mut Rng, id: String, thorough: bool, wide: bool) {
     out.case(id);
-    let n_ex = rng.range(1, 3) as usize;
+    let n_ex = if wide { rng.range(1, 5) as usize } else { rng.range(1, 3) as usize };
+    let regime = if wide { rng.range(1, 3) as u8 } else { 0 };
     let mut labels: Vec<usize> = (0..EXS.len()).collect();
     for i in (1..labels.len()).rev() {
         let j = rng.below(i as u64 + 1) as usize;
@@ -1112,6 +1187,7 @@ fn emit_random(out: &mut Out, rng: &mut Rng, id: String, thorough: bool) {
             match rng.below(10) {
                 0 => {}
                 1 | 2 => out.line(format!("live {e}")),
+                _ if wide => out.line(mock_toks(&gen_mock_wide(rng, &ii, *e, regime))),
                 _ => {
                     let spoil = rng.chance(8);
                     out.line(mock_toks(&gen_mock(rng, &ii, *e, spoil)));
@@ -1128,6 +1204,11 @@ fn emit_random(out: &mut Out, rng: &mut Rng, id: String, thorough: bool) {
             }
         }
         out.line("build");
+        if wide {
+            let n_orders = rng.range(10, 30) as usize;
+            gen_orders_from(out, rng, &ii, n_orders, regime);
+            continue;
+        }
         let n_orders = rng.range(2, if thorough { 14 } else { 9 }) as usize;
         gen_orders(out, rng, &ii, n_orders);
     }
@@ -1302,6 +1383,12 @@ fn generate(seed: u64, n_cases: usize, tier: &str) {
     for k in 0..n_cases {
         let mut r = rng.fork();
         emit_random(&mut out, &mut r, format!("r{}", k + 1), thorough);
+    }
+    // input-domain family: its own seed, so the random cases above stay what they were
+    let mut rd = Rng::new(seed ^ 0xD04A_1C4D);
+    for k in 0..(n_cases / 6).max(6) {
+        let mut r = rd.fork();
+        emit_random_from(&mut out, &mut r, format!("d{}", k + 1), thorough, true);
     }
     out.flush();
 }
